@@ -221,6 +221,9 @@ def sweep(tier="quick", seed=0, unsupported=()):
     cfgs = [(1.0, 0.0, False), (1.0, 0.0, True), (1.0, 3.0, True), (0.5, 2.0, False), (0.3, 1.0, True), (1.3, 2.6, False), (0.1, 0.3, True), (2.0, 5.0, True)]
     if tier == "quick":
         cfgs = cfgs[:6]
+    # ratios one ulp above 2^k - 1 (2.1/0.7 = 3.0000000000000004, 4.2/0.6, 10.5/0.7): ceil(ratio) + inclusive and
+    # ceil(ratio + inclusive) differ in floating point, so every setter must use the constructor's form of the formula
+    cfgs = cfgs + [(0.7, 2.1, True), (0.6, 4.2, True), (0.7, 10.5, False)]
     orders = [("dt",), ("duration",), ("inclusive",), ("dt", "duration", "inclusive"), ("inclusive", "dt")]
     for c0, c1 in itertools.product(cfgs, repeat=2):
         for storage in ("none", "empty", "buffer", "parameter"):
